@@ -57,6 +57,66 @@ CHECKS = {
              "3-TU programs are linked in permuted orders. The schedules explored are exactly the initialisation orders the two compilers produce.",
         note="Known finding (GCC, run-time conversion dispatch tables) is listed in known_findings.json per facility; everything else must pass.",
         ref="3/C19"),
+    "C03": dict(
+        technique="runtime monitor: metamorphic oracle (bit-exact commutation with power-of-two rescaling of the seven base units) over all detected operators and harvested constructors/members",
+        text="Every binary operator instance found by compile-time detection over all ordered pairs of the 92 quantity types, every "
+             "harvested constructor (1-9 arguments) and member function is executed twice, on random operands and on the same operands "
+             "after rescaling the base units by independent powers of 2^6; the results must agree bit for bit after scaling by the "
+             "factor the declared dimension set predicts. The program dimension is exhaustive, inputs are sampled.",
+        note="Trusts the declared dimension sets (tied to units by C06) and the regex harvest (each item confirmed by a detection idiom; counts reported).",
+        ref="3/C03"),
+    "C04": dict(
+        technique="runtime monitor: bit-exact IEEE reference per operator instance, random compound-assignment histories against pure-operator chains, constructor twins, math overloads",
+        text="All ~780 operator instances per numeric type are run on random operands and compared bit for bit with the IEEE operation "
+             "named by the operator symbol applied to the stored values in the written order; random histories of mixed compound "
+             "assignments are replayed against the chain of pure operators; constructor twins and std:: math overloads must be bit-identical.",
+        note="Strict-IEEE build (-O1 -ffp-contract=off, no -ffast-math); the repository's own -ffast-math flags are out of scope.",
+        ref="3/C04"),
+    "C05": dict(
+        technique="runtime monitor: round-trip oracle over all inverse pairs derived from declared signatures (393 constructor pairs + 214 operator pairs), conditioning measured by perturbing the intermediate",
+        text="Every constructor pair X(A..)/A_r(X, rest) generated from the harvested signatures and every operator pair (a op b) op' b "
+             "is composed on positive log-uniform inputs over +-20 decades in three numeric types; the recovered operand must match "
+             "within 4 ulps (8 for 3-4 argument relations), at the scale of the largest operand for additive families, or within the "
+             "measured effect of one rounding of the intermediate for relations that cancel by nature.",
+        note="Pairs come from signatures; ill-conditioned intermediates (one ulp moves the answer by >1 %) are counted and skipped.",
+        ref="3/C05"),
+    "C09": dict(
+        technique="runtime monitor: index-loop reference algebra (int64 exact / binary128) on basis pairs, exhaustive small-integer grids and random tensors",
+        text="123 operations per numeric type (all product overloads, dot/cross/dyadic, determinant, cofactors, adjugate, inverse, "
+             "component-wise arithmetic, embeddings) are compared with an independent index-loop reference: exactly on integer-valued "
+             "inputs (basis pairs make the bilinear program space exhaustive), within conditioning-aware bounds on reals; inverse "
+             "presence is decided exactly on integer matrices including purpose-built singular ones.",
+        note="Trusts libquadmath; a-priori forward error bound gamma_n*sum|monomials| accepted for determinant/inverse on reals.",
+        ref="3/C09"),
+    "C10": dict(
+        technique="runtime monitor: binary128 oracle for unit length, parallelism, scale invariance and recomposition over every harvested construction path of a direction and the 17 vector quantities",
+        text="58 construction paths of Direction/PlanarDirection and the Magnitude/Direction/component accessors of all 17 vector "
+             "quantity types are driven with 16 input classes (200 binades of length, dominant components, signed zeros, zero vector); "
+             "|d|-1 <= 4 ulps, parallelism, bit-exact invariance under power-of-two rescaling, typed magnitude and recomposition are judged in binary128.",
+        note="Inputs whose component squares underflow are outside the premise for the bit-identity clause (counted in evidence).",
+        ref="3/C10"),
+    "C12": dict(
+        technique="runtime monitor: binary128 isotropic-elasticity reference from the same rounded inputs, all 20 constructors x 7 accessors x 3x3 overloads, direct and virtual calls",
+        text="Ground-truth materials over many decades of stiffness and Poisson ratios in [0, 0.5) feed each of the 20 constructors; stored "
+             "moduli, identities, rebuilds from every reported pair, Stress/Strain maps per slot, their composition, argument "
+             "independence and virtual-vs-direct bit identity are judged with conditioning-aware bounds in three numeric types.",
+        note="Bound 4*(ulp + Delta) with Delta from one-ulp input perturbations of the binary128 reference.",
+        ref="3/C12"),
+    "C13": dict(
+        technique="runtime monitor: binary128 reference 2*mu*D + mu_b*tr(D)*I and its inverse, linearity and exact homogeneity checks, all overload x model-type cells direct and virtual",
+        text="Both Newtonian fluid classes x 3 model numeric types x 3 argument overloads are exercised on 9 tensor classes and viscosities "
+             "over many decades: stress and strain-rate maps per slot, their composition, zero stubs, bit-identical virtual calls, "
+             "linearity and power-of-two homogeneity.",
+        note="Bound 4*(ulp at the largest term + summed one-ulp sensitivities).",
+        ref="3/C13"),
+    "C18": dict(
+        technique="runtime monitor: table of 140 definitional rows (constructor, operator and member spellings, all inverse forms), each detected at compile time and compared with its textbook formula in binary128",
+        text="Each named definition (dynamic pressure, total pressure, sound speed, Mach, Reynolds, Prandtl, gamma and R families, "
+             "thermal diffusivity, kinematic viscosity, period/frequency, strain(-rate) from gradients, thermal strains, von Mises, "
+             "traction, isotropic stress) is evaluated on independent positive inputs over +-20 decades in three numeric types and "
+             "compared per slot with the formula written on binary128; a removed relation is reported absent, one that no longer compiles is a violation.",
+        note="Bound 4 ulps (4*(ulp+Delta) for rows that subtract).",
+        ref="3/C18"),
 }
 
 PENDING = {}
